@@ -17,6 +17,21 @@ from .source import AnalysisError
 IGNORED_CALLS = {'print'}
 
 
+MESSAGE_CALLS = {'warn', 'warnings.warn'}
+
+
+def _demsg(k):
+    """Drop message texts from warn(...) calls (category and other
+    arguments stay)."""
+    if k[0] == 'call' and sym.Evaluator()._call_name(k[1]) in MESSAGE_CALLS:
+        args = tuple(('msg',) if (a[0] in ('fmt', 'strcat', 'fstr')
+                                  or (a[0] == 'const'
+                                      and isinstance(a[1], str)))
+                     else a for a in k[2])
+        return ('call', k[1], args, k[3])
+    return k
+
+
 def _lits(k, pol):
     """Flatten one condition into a set of literal keys."""
     if not pol:
@@ -53,7 +68,7 @@ def signature(path, keep_raise_args=False, ignore_attr_stores=()):
                 continue
             if k[0] == 'const':
                 continue
-            effects.append(('do', k))
+            effects.append(('do', _demsg(k)))
         elif e[0] == 'del':
             effects.append(('del', e[1]))
         elif e[0] == 'aug':
@@ -80,7 +95,7 @@ def _loop_sig(body_events):
                 if k[0] == 'call' and sym.Evaluator()._call_name(k[1]) \
                         in IGNORED_CALLS:
                     continue
-                ev.append(('do', k))
+                ev.append(('do', _demsg(k)))
             elif e[0] == 'aug':
                 ev.append(('aug', e[1], e[2], e[3]))
             elif e[0] == 'loop':
